@@ -9,18 +9,18 @@ open VgiVerif.C05 VgiVerif.Gen.C05
 
 /-- the tree before `fix: a request naming an unusable shared-memory segment …` and `fix: a request the server could not decode …` -/
 def pinned : Tables :=
-  { Tables.gen with attachGuard := [], pointerGuard := [], releaseGuard := [], traceDecode := [], asPyGuard := [],
+  { Tables.gen with attachGuard := [], attachConvert := [], pointerGuard := [], releaseGuard := [], traceDecode := [], asPyGuard := [],
                     firstRead := [], drainSkips := [], firstReadDrains := false, firstDrainSkips := [], firstDrainEnds := [] }
 
 /-- a plain valid `add(1, 2)` -/
 def valid : Req :=
   { openStream := .ok, firstRead := .ok, laterReads := [], hasMethod := true, methodText := true, version := .current,
     traceparent := .absent, tracestate := .absent, shmName := .absent, shmSize := .absent, isPointer := false,
-    staticShm := false, attach := .ok, resolve := .ok, release := .ok, ncols := 2, rows := 1, asPy := .ok,
+    staticShm := false, shmOpen := .ok, allocInit := .ok, resolve := .ok, release := .ok, ncols := 2, rows := 1, asPy := .ok,
     isTransportOptions := false, methodKnown := true, versionCheck := .ok, validate := .ok, call := .ok }
 
-def missingSegment : Req := { valid with shmName := .text, shmSize := .numeric, attach := .raises .FileNotFoundError }
-def foreignSegment : Req := { valid with shmName := .text, shmSize := .numeric, attach := .raises .ValueError }
+def missingSegment : Req := { valid with shmName := .text, shmSize := .numeric, shmOpen := .raises .FileNotFoundError }
+def foreignSegment : Req := { valid with shmName := .text, shmSize := .numeric, allocInit := .raises .ValueError }
 def badTraceparent : Req := { valid with traceparent := .undecodable }
 def badTracestate : Req := { valid with traceparent := .text, tracestate := .undecodable }
 def emptyStream : Req := { valid with firstRead := .raises .StopIteration }
@@ -52,6 +52,14 @@ theorem repaired_answered :
     (pointerGarbage :: { pointerNoLength with resolve := .raises .ValueError } :: witnesses.erase pointerNoLength).map
         (fun rq => (serveOne Tables.gen rq).outcome)
       = (pointerGarbage :: pointerNoLength :: witnesses.erase pointerNoLength).map (fun _ => .replyContinue) := by decide
+
+/-- a foreign segment smaller than the 24-byte header: `ShmAllocator` raises struct.error.  If `ShmSegment.attach` did not
+convert it (handler narrowed to ValueError), nothing on the way out catches it: the connection ends silently -/
+def tinySegment : Req := { valid with shmName := .text, shmSize := .numeric, allocInit := .raises .StructError }
+
+theorem tiny_segment_needs_conversion :
+    (serveOne { Tables.gen with attachConvert := [.ValueError] } tinySegment).outcome = .silentStop ∧
+    (serveOne Tables.gen tinySegment).outcome = .replyContinue := by decide
 
 theorem assert_gone : Gen.C05.pointerAssertsLength = false := by decide
 
